@@ -4,13 +4,18 @@ The renderings are read back by two readers written from the format descriptions
 (vlib/rd_opb.py, vlib/rd_latex.py) and compared row by row with ``list(F)`` and with
 ``F.all_variable_labels()``.
 """
+import codecs
 import gc
+import inspect
 import io
 import itertools
+import json
 import os
+import pathlib
 import random
 import re
 import shutil
+import subprocess
 import sys
 import tempfile
 from collections import Counter
@@ -1008,3 +1013,820 @@ SUBCHECKS.append(
     SubCheck('large', run_large, enumerate_cases=enum_large,
              rule="CNF and OPB formulas with 4095..8193 (thorough: ..32769) rows rendered to OPB (strict reader: counts, every row) and LaTeX (row count); non-trivial: all",
              required_labels=['rows>=4096']))
+
+
+# ---------------------------------------------------------------------------
+# WHERE the rendering goes (destination) and in WHICH ENVIRONMENT it is written
+#
+# destination: the text a destination receives is the text a StringIO receives (which is read back and
+# compared with the formula as everywhere else), whatever kind of destination the caller names;
+# environment: a file written *by name* is a complete UTF-8 file denoting the formula, whatever the
+# default text encoding of the process is (child process in the plain C locale, UTF-8 mode off).
+
+_BLANKDIR = 'my dir'
+_PRE = 'PREVIOUS line of the caller\n'
+_POST = 'NEXT line of the caller\n'
+_JUNK = 'junk left in the file by a previous run\n' * 400        # longer than the small renderings
+
+
+class _Minimal:
+    """nothing but write(), which returns None"""
+    __slots__ = ('chunks',)
+
+    def __init__(self):
+        self.chunks = []
+
+    def write(self, s):
+        self.chunks.append(s)
+
+
+class _Chunks(list):
+    """the usual chunk collector; like every list it is FALSY while empty"""
+    write = list.append
+
+
+class _NamedChunks(_Chunks):
+    """a chunk collector that also carries the name of what it stands for"""
+
+    def __init__(self, name):
+        list.__init__(self)
+        self.name = name
+
+
+class _LenBuffer:
+    """a buffer with a length (0 while empty, hence falsy); write() returns the count"""
+
+    def __init__(self):
+        self.chunks = []
+
+    def __len__(self):
+        return sum(len(c) for c in self.chunks)
+
+    def write(self, s):
+        self.chunks.append(s)
+        return len(s)
+
+
+class _BoolBuffer:
+    """__bool__ answers 'is there anything waiting to be flushed': never; write() returns the count"""
+
+    def __init__(self):
+        self.chunks = []
+
+    def __bool__(self):
+        return False
+
+    def write(self, s):
+        self.chunks.append(s)
+        return len(s)
+
+
+class _Counting:
+    """an ordinary (truthy) object whose write() returns the count"""
+
+    def __init__(self):
+        self.chunks = []
+
+    def write(self, s):
+        self.chunks.append(s)
+        return len(s)
+
+
+_USER_CLASSES = {'minimal': _Minimal, 'chunks': _Chunks, 'lenbuffer': _LenBuffer, 'boolbuffer': _BoolBuffer,
+                 'counting': _Counting}
+_NAME_KINDS = ('name', 'pathlib')
+_HANDLE_KINDS = ('handle', 'handle-newline-empty', 'handle-line-buffered', 'handle-crlf', 'handle-w+', 'handle-append',
+                 'codecs')
+_OBJECT_KINDS = _HANDLE_KINDS + ('wrapper-bytesio', 'spooled', 'namedtemp', 'stringio', 'named-chunks') + tuple(_USER_CLASSES)
+_NONE_KINDS = ('none', 'none-falsy-stdout')
+_DEST_KINDS = _NONE_KINDS + _NAME_KINDS + _OBJECT_KINDS
+_FALSY_KINDS = ('chunks', 'named-chunks', 'lenbuffer', 'boolbuffer')
+
+
+def _joined(chunks, what):
+    for c in chunks:
+        if not isinstance(c, str):
+            raise Violation("{}: write() was called with a {} instead of a str".format(what, type(c).__name__))
+    return ''.join(chunks)
+
+
+class _Destination:
+    """One destination of a rendering: ``obj`` is what the writer is given, ``before`` what the destination holds
+    before the call, ``received()`` what it holds afterwards (with the translation of line ends undone)."""
+
+    def __init__(self, spec, root):
+        kind = spec['kind']
+        self.kind, self.root, self.path, self.handle, self.before, self.crlf = kind, root, None, None, '', False
+        sub = _BLANKDIR if spec.get('blank') else ''
+        fname = spec.get('name') or 'f'
+        if kind in _NAME_KINDS or kind in _HANDLE_KINDS:
+            os.makedirs(os.path.join(root, sub), exist_ok=True)
+            self.path = os.path.join(root, sub, fname)
+            shown = os.path.join(sub, fname) if spec.get('rel') else self.path
+        pre = bool(spec.get('pre'))
+        if kind in _NONE_KINDS:
+            self.obj = None
+        elif kind in _NAME_KINDS:
+            if pre:
+                with open(self.path, 'w', encoding='utf-8') as f:
+                    f.write(_JUNK)
+            self.obj = shown if kind == 'name' else pathlib.Path(shown)
+        elif kind in _HANDLE_KINDS:
+            if kind == 'handle-append':
+                with open(self.path, 'w', encoding='utf-8', newline='') as f:
+                    f.write('OLD content\n')
+                self.before = 'OLD content\n'
+            if kind == 'codecs':
+                self.handle = codecs.open(shown, 'w', 'utf-8')
+            else:
+                kw = {'handle': {}, 'handle-newline-empty': {'newline': ''}, 'handle-line-buffered': {'buffering': 1},
+                      'handle-crlf': {'newline': '\r\n'}, 'handle-w+': {'mode': 'w+'}, 'handle-append': {'mode': 'a'}}[kind]
+                kw = dict(kw)
+                self.handle = open(shown, kw.pop('mode', 'w'), encoding='utf-8', **kw)
+            self.crlf = kind == 'handle-crlf'
+            self.obj = self.handle
+        elif kind == 'wrapper-bytesio':
+            self.raw = io.BytesIO()
+            self.obj = io.TextIOWrapper(self.raw, encoding='utf-8', newline='')
+        elif kind == 'spooled':
+            # rolls over from memory to a real file after 64 characters
+            self.obj = self.handle = tempfile.SpooledTemporaryFile(max_size=64, mode='w+', encoding='utf-8', newline='', dir=root)
+        elif kind == 'namedtemp':
+            self.obj = self.handle = tempfile.NamedTemporaryFile('w+', encoding='utf-8', newline='', dir=root,
+                                                                 suffix=os.path.splitext(fname)[1])
+        elif kind == 'stringio':
+            self.obj = io.StringIO()
+        elif kind == 'named-chunks':
+            self.obj = _NamedChunks(fname)
+        else:
+            self.obj = _USER_CLASSES[kind]()
+        if pre and kind in _OBJECT_KINDS:
+            self.obj.write(_PRE)
+            self.before += _PRE
+
+    def guess_name(self):
+        """the name the format is guessed from: the string itself, else a string-valued ``name`` attribute"""
+        if isinstance(self.obj, str):
+            return self.obj
+        name = getattr(self.obj, 'name', None) if self.obj is not None else None
+        return name if isinstance(name, str) else None
+
+    def exists(self):
+        return self.path is not None and os.path.exists(self.path)
+
+    def file_text(self):
+        with open(self.path, 'rb') as f:
+            return f.read().decode('utf-8')
+
+    def after_call(self, what):
+        """the caller goes on using its object"""
+        if self.kind not in _OBJECT_KINDS:
+            return ''
+        if getattr(self.obj, 'closed', False):
+            raise Violation("{}: the writer closed the file object of the caller".format(what))
+        self.obj.write(_POST)
+        return _POST
+
+    def received(self, what):
+        kind, o = self.kind, self.obj
+        if kind in _NAME_KINDS:
+            return self.file_text()
+        if kind in _HANDLE_KINDS:
+            self.handle.close()
+            t = self.file_text()
+            return t.replace('\r\n', '\n') if self.crlf else t
+        if kind == 'wrapper-bytesio':
+            o.flush()
+            return self.raw.getvalue().decode('utf-8')
+        if kind in ('spooled', 'namedtemp'):
+            o.seek(0)
+            return o.read()
+        if kind == 'stringio':
+            return o.getvalue()
+        if kind in ('chunks', 'named-chunks'):
+            return _joined(list(o), what)
+        return _joined(o.chunks, what)
+
+    def cleanup(self):
+        for h in (self.handle, self.obj if self.kind == 'wrapper-bytesio' else None):
+            try:
+                if h is not None:
+                    h.close()
+            except Exception:     # noqa
+                pass
+
+
+class _StdoutAs:
+    """sys.stdout replaced for the duration of a call; ``falsy`` makes the replacement a chunk collector"""
+
+    def __init__(self, falsy=False):
+        self.repl = _Chunks() if falsy else io.StringIO()
+
+    def __enter__(self):
+        self.old = sys.stdout
+        sys.stdout = self.repl
+        return self
+
+    def __exit__(self, *a):
+        sys.stdout = self.old
+        return False
+
+    def text(self, what):
+        return _joined(list(self.repl), what) if isinstance(self.repl, list) else self.repl.getvalue()
+
+
+def _denote(fmt, text, F, what, eh, ev, extra='', header_content=True):
+    if fmt == 'snippet':
+        check_latex(text, F, what, document=False)
+    elif fmt == 'latex':
+        check_latex(text, F, what, document=True, export_header=eh if header_content and not extra else None)
+    else:
+        check_format(fmt, text, F, what, eh, ev, header_content=header_content)
+
+
+def _write(F, via, obj, req, eh, ev, extra, omit=False, pass_none=False):
+    """one call of an entry point of the writers with destination obj"""
+    from cnfgen.utils.opb import to_opb_file
+    from cnfgen.utils import latexoutput
+    if via == 'to_file':
+        kw = dict(export_header=eh, export_varnames=ev)
+        if extra:
+            kw['extra_text'] = extra
+        if req is not None or pass_none:
+            kw['fileformat'] = req
+        if omit and obj is None:
+            F.to_file(**kw)                   # fileorname has the default None
+        else:
+            F.to_file(obj, **kw)
+    elif via == 'to_opb_file':
+        if omit and obj is None:
+            to_opb_file(F, export_header=eh, export_varnames=ev)
+        else:
+            to_opb_file(F, obj, export_header=eh, export_varnames=ev)
+    elif via == 'to_latex_document':
+        latexoutput.to_latex_document(F, obj, export_header=eh, extra_text=extra)
+    elif via == 'print_latex':
+        latexoutput._print_latex(F, obj)
+    else:
+        raise RuntimeError("unknown entry point {}".format(via))
+
+
+def _norm_dest_case(case):
+    """combinations that do not exist are mapped to the nearest one that does"""
+    d = case['dest']
+    if case['via'] == 'print_latex' and d['kind'] not in _OBJECT_KINDS:
+        case['via'] = 'to_latex_document'        # the snippet writer only takes an object
+    if case['via'] != 'to_file':
+        case['request'] = None
+    if case['cls'] == 'OPB' and case.get('request') == 'dimacs':
+        case['request'] = 'opb'
+    return case
+
+
+def run_dest(case):
+    from cnfgen.utils import latexoutput
+    case = _norm_dest_case(dict(case, dest=dict(case['dest'])))
+    F = build_hand(case)
+    via, req, spec = case['via'], case.get('request'), case['dest']
+    eh, ev, extra = bool(case.get('eh', True)), bool(case.get('ev', False)), case.get('extra_text', '')
+    kind = spec['kind']
+    labels = ['dest-' + kind, 'via-' + via]
+    nontrivial = shape_labels(F, labels)
+    if via == 'print_latex' and not hasattr(latexoutput, '_print_latex'):
+        return Outcome(labels=labels + ['no-_print_latex'], nontrivial=False, rejected=True)
+    root = tempfile.mkdtemp(prefix='verif_c12_dest_')
+    cwd = os.getcwd()
+    dest = None
+    try:
+        os.chdir(root)
+        dest = _Destination(spec, root)
+        # the format, from the request or from the name of the destination
+        gname = dest.guess_name()
+        if via == 'to_file':
+            fmt = expected_format(F, gname, req)
+        else:
+            fmt = {'to_opb_file': 'opb', 'to_latex_document': 'latex', 'print_latex': 'snippet'}[via]
+        what = "{}({} {!r}{}) [{}]".format(via, kind, spec.get('name') if gname else None,
+                                          ', fileformat={!r}'.format(req) if via == 'to_file' else '', fmt)
+        # reference: the same entry point writing into a StringIO (the snippet: the public to_latex())
+        if via == 'print_latex':
+            ref = F.to_latex()
+        else:
+            buf = io.StringIO()
+            _write(F, via, buf, fmt if via == 'to_file' else None, eh, ev, extra)
+            ref = buf.getvalue()
+        _denote(fmt, ref, F, what + ' into a StringIO', eh, ev, extra, header_content=bool(case.get('header_content', True)))
+        refused = None
+        with _StdoutAs(falsy=(kind == 'none-falsy-stdout')) as out:
+            try:
+                _write(F, via, dest.obj, req, eh, ev, extra, omit=bool(case.get('omit')), pass_none=bool(case.get('pass_none')))
+            except (AttributeError, TypeError) as e:
+                if kind != 'pathlib':
+                    raise
+                refused = e
+        on_stdout = out.text(what)
+        if refused is not None:
+            # the writers document "file object or string": a pathlib.Path may be refused, but then nothing is written
+            if on_stdout:
+                raise Violation("{}: the destination is refused ({}) but {} characters went to the standard output".format(
+                    what, refused, len(on_stdout)))
+            if dest.exists() != bool(spec.get('pre')) or (spec.get('pre') and dest.file_text() != _JUNK):
+                raise Violation("{}: the destination is refused ({}) but the file was {}".format(
+                    what, refused, 'overwritten' if spec.get('pre') else 'created'))
+            return Outcome(labels=labels + ['pathlib-refused'], nontrivial=False, rejected=True)
+        if kind in _NONE_KINDS:
+            got, want = on_stdout, ref
+        else:
+            if on_stdout:
+                raise Violation("{}: {} characters went to the standard output although a destination was given: {!r}".format(
+                    what, len(on_stdout), on_stdout[:60]), signature='destination-leaks-to-stdout')
+            post = dest.after_call(what)
+            got, want = dest.received(what), dest.before + ref + post
+        if got != want:
+            i = next((k for k, (a, b) in enumerate(zip(got, want)) if a != b), min(len(got), len(want)))
+            raise Violation("{}: the destination received {} characters, a StringIO receives {} for the same formula "
+                            "(first difference at {}: {!r} vs {!r})".format(what, len(got) - len(want) + len(ref), len(ref), i,
+                                                                           got[i:i + 40], want[i:i + 40]))
+    finally:
+        os.chdir(cwd)
+        if dest is not None:
+            dest.cleanup()
+        shutil.rmtree(root, ignore_errors=True)
+    labels.append('selected-' + fmt)
+    if kind == 'pathlib':
+        labels.append('pathlib-accepted')
+    if kind in _NAME_KINDS or kind in _HANDLE_KINDS:
+        labels.append('relative' if spec.get('rel') else 'absolute')
+        if spec.get('blank'):
+            labels.append('blank-in-directory')
+    if spec.get('pre'):
+        labels.append('destination-not-empty')
+    if kind in _FALSY_KINDS and not spec.get('pre'):
+        labels.append('falsy-destination')
+    if via == 'to_file' and req is None and kind not in _NAME_KINDS and gname is not None \
+            and os.path.splitext(gname)[1] in ('.opb', '.tex'):
+        labels.append('format-from-name-attribute')
+    if case.get('omit') and kind in _NONE_KINDS:
+        labels.append('destination-omitted')
+    return Outcome(labels=labels, nontrivial=nontrivial or kind in _FALSY_KINDS)
+
+
+# --- the command line tools as writers: -o <name> against the standard output of the same command line
+
+def run_dest_cli(case):
+    tool, args, of, o = case['tool'], list(case['args']), case['of'], case['out']
+    opts = ['-q', '-of', of] + (['--varnames'] if case.get('varnames') else [])
+    labels = ['via-cli', tool, 'cli-out-' + o['how']]
+    F = run_tool(tool, opts + args, 'formula')
+    nontrivial = shape_labels(F, labels)
+    with _StdoutAs() as out:
+        run_tool(tool, opts + args, 'output')
+    ref = out.text('')
+    what0 = ' '.join([tool] + opts + args)
+    _denote(of, ref, F, what0, False, bool(case.get('varnames')))
+    root = tempfile.mkdtemp(prefix='verif_c12_dest_')
+    cwd = os.getcwd()
+    try:
+        os.chdir(root)
+        sub = _BLANKDIR if o.get('blank') else ''
+        os.makedirs(os.path.join(root, sub), exist_ok=True)
+        path = os.path.join(root, sub, o['name'])
+        if o['how'] == 'dash':
+            given = '-'
+        else:
+            given = os.path.join(sub, o['name']) if o.get('rel') else path
+            if o.get('pre'):
+                with open(path, 'w', encoding='utf-8') as f:
+                    f.write(_JUNK)
+        what = ' '.join([tool] + opts + ['-o', repr(given)] + args)
+        with _StdoutAs() as out:
+            run_tool(tool, opts + ['-o', given] + args, 'output')
+        gc.collect()                            # the tool leaves closing its -o file to the garbage collector
+        if o['how'] == 'dash':
+            got = out.text(what)
+        else:
+            if out.text(what):
+                raise Violation("{}: {} characters on the standard output although -o names a file".format(what, len(out.text(what))))
+            with open(path, 'rb') as f:
+                got = f.read().decode('utf-8')
+        if got != ref:
+            raise Violation("{}: the file holds {} characters, the standard output of the same command line without -o "
+                            "has {}".format(what, len(got), len(ref)))
+    finally:
+        os.chdir(cwd)
+        shutil.rmtree(root, ignore_errors=True)
+    if o.get('blank'):
+        labels.append('blank-in-directory')
+    if o['how'] != 'dash':
+        labels.append('relative' if o.get('rel') else 'absolute')
+    return Outcome(labels=labels + ['selected-' + of], nontrivial=nontrivial)
+
+
+# --- the environment: a child process whose default text encoding is not UTF-8
+
+_ENVS = {
+    # name: (environment, interpreter options, EncodingWarning is an error)
+    'C': ({'LC_ALL': 'C', 'LANG': 'C', 'PYTHONUTF8': '0', 'PYTHONCOERCECLOCALE': '0'}, [], False),
+    'C-stdout-ascii': ({'LC_ALL': 'C', 'LANG': 'C', 'PYTHONUTF8': '0', 'PYTHONCOERCECLOCALE': '0', 'PYTHONIOENCODING': 'ascii'}, [], False),
+    'C-stdout-latin-1': ({'LC_ALL': 'C', 'LANG': 'C', 'PYTHONUTF8': '0', 'PYTHONCOERCECLOCALE': '0', 'PYTHONIOENCODING': 'latin-1'}, [], False),
+    # UTF-8 locale, but the interpreter reports every use of the default encoding (PEP 597) and the user made it an error
+    'utf8-warn-default-encoding': ({'LC_ALL': 'C.UTF-8', 'LANG': 'C.UTF-8', 'PYTHONUTF8': '0'}, ['-X', 'warn_default_encoding'], True),
+}
+
+_CHILD_MAIN = r'''
+def _main():
+    import json, locale, os, pathlib, sys, traceback, warnings
+    spec = json.loads(sys.stdin.read())
+    report = {'preferred': locale.getpreferredencoding(False), 'stdout': sys.stdout.encoding, 'stdout_errors': sys.stdout.errors,
+              'utf8_mode': sys.flags.utf8_mode, 'jobs': [], 'fatal': None}
+    try:
+        from cnfgen.utils.opb import to_opb_file
+        from cnfgen.utils.latexoutput import to_latex_document
+        if spec['warn']:
+            warnings.simplefilter('error', EncodingWarning)
+        F = build_hand(spec['formula'])
+        eh, ev, extra = spec['eh'], spec['ev'], spec['extra']
+        for i, job in enumerate(spec['jobs']):
+            via, req, how, name = job['via'], job['request'], job['how'], job['name']
+            rec = {'error': None, 'size': None}
+            handle = None
+            if how == 'none':
+                dest = None
+                sys.stdout.write('\n@@JOB {}@@\n'.format(i))
+                sys.stdout.flush()
+            elif how == 'str':
+                dest = name
+            elif how == 'path':
+                dest = pathlib.Path(name)
+            else:
+                dest = handle = open(name, 'w', encoding='utf-8', newline='')
+            try:
+                if via == 'to_file':
+                    kw = {'fileformat': req} if req else {}
+                    F.to_file(dest, export_header=eh, export_varnames=ev, extra_text=extra, **kw)
+                elif via == 'to_opb_file':
+                    to_opb_file(F, dest, export_header=eh, export_varnames=ev)
+                else:
+                    to_latex_document(F, dest, export_header=eh, extra_text=extra)
+            except Exception as e:
+                tb = traceback.extract_tb(e.__traceback__)
+                rec['error'] = [type(e).__name__, ascii(str(e)), [f.filename for f in tb]]
+            if how in ('str', 'path') and os.path.exists(name):
+                rec['size'] = os.path.getsize(name)          # on return, before anything is flushed at exit
+            if handle is not None:
+                handle.close()
+            if how == 'none':
+                try:
+                    sys.stdout.flush()
+                except Exception:
+                    pass
+                sys.stdout.write('\n@@END {}@@\n'.format(i))
+                sys.stdout.flush()
+            report['jobs'].append(rec)
+    except BaseException as e:
+        report['fatal'] = ascii(traceback.format_exc())
+    with open(spec['report'], 'w', encoding='ascii') as f:
+        json.dump(report, f)
+
+
+_main()
+'''
+
+
+def _child_source():
+    return "_SENTINEL = {!r}\n\n{}\n{}".format(_SENTINEL, inspect.getsource(build_hand), _CHILD_MAIN)
+
+
+def _env_jobs(cnf):
+    jobs = [
+        {'via': 'to_file', 'request': None, 'how': 'str', 'name': 'f.opb', 'abs': True},
+        {'via': 'to_file', 'request': None, 'how': 'str', 'name': _BLANKDIR + '/g.tex', 'abs': False},
+        {'via': 'to_file', 'request': 'latex', 'how': 'str', 'name': 'h', 'abs': True},
+        {'via': 'to_file', 'request': 'opb', 'how': 'str', 'name': 'h2.txt', 'abs': False},
+        {'via': 'to_file', 'request': None, 'how': 'str', 'name': _BLANKDIR + '/d.cnf', 'abs': True},
+        {'via': 'to_opb_file', 'request': None, 'how': 'str', 'name': 'k.opb', 'abs': False},
+        {'via': 'to_latex_document', 'request': None, 'how': 'str', 'name': 'k.tex', 'abs': True},
+        {'via': 'to_file', 'request': None, 'how': 'path', 'name': 'p.tex', 'abs': True},
+        {'via': 'to_file', 'request': None, 'how': 'path', 'name': 'p.opb', 'abs': False},
+        {'via': 'to_file', 'request': 'latex', 'how': 'handle', 'name': 'hh.tex', 'abs': False},
+        {'via': 'to_file', 'request': 'opb', 'how': 'handle', 'name': 'hh.opb', 'abs': True},
+        {'via': 'to_file', 'request': 'opb', 'how': 'none', 'name': None},
+        {'via': 'to_file', 'request': 'latex', 'how': 'none', 'name': None},
+        {'via': 'to_opb_file', 'request': None, 'how': 'none', 'name': None},
+    ]
+    if cnf:
+        jobs.append({'via': 'to_file', 'request': 'dimacs', 'how': 'str', 'name': 'e.txt', 'abs': False})
+    return jobs
+
+
+def _encodable(text, enc):
+    try:
+        text.encode(enc)
+        return True
+    except (UnicodeEncodeError, LookupError):
+        return False
+
+
+def run_env(case):
+    from vlib.core import REPO
+    F = build_hand(case['formula'])
+    eh, ev, extra = bool(case.get('eh', True)), bool(case.get('ev', True)), case.get('extra_text', '')
+    envname = case['env']
+    envvars, pyopts, warn = _ENVS[envname]
+    labels = ['env-' + envname]
+    nontrivial = shape_labels(F, labels)
+    texts = [str(l) for l in F.all_variable_labels()] + [str(v) for v in F.header.values()] + [extra]
+    nonascii = any(not _encodable(t, 'ascii') for t in texts)
+    if nonascii:
+        labels.append('non-ascii-text')
+    if any(not _encodable(str(l), 'latin-1') for l in F.all_variable_labels()):
+        labels.append('name-not-latin-1')
+    if any(ord(ch) > 0xFFFF for l in F.all_variable_labels() for ch in str(l)):
+        labels.append('name-beyond-BMP')
+    jobs = _env_jobs(is_cnf(F))
+    root = tempfile.mkdtemp(prefix='verif_c12_env_')
+    try:
+        os.makedirs(os.path.join(root, _BLANKDIR))
+        for j in jobs:
+            if j['name'] is not None and j.get('abs'):
+                j['name'] = os.path.join(root, j['name'])
+        report_path = os.path.join(root, 'report.json')
+        env = {'PATH': os.environ.get('PATH', '/usr/bin:/bin'), 'HOME': root, 'PYTHONPATH': REPO, 'PYTHONHASHSEED': '0',
+               'PYTHONWARNINGS': 'ignore::SyntaxWarning'}
+        if os.environ.get('PYTHONPYCACHEPREFIX'):
+            env['PYTHONPYCACHEPREFIX'] = os.environ['PYTHONPYCACHEPREFIX']
+        else:
+            env['PYTHONDONTWRITEBYTECODE'] = '1'
+        env.update(envvars)
+        spec = {'formula': case['formula'], 'eh': eh, 'ev': ev, 'extra': extra, 'jobs': jobs, 'warn': warn, 'report': report_path}
+        python = sys.executable or '/venv/bin/python'
+        p = subprocess.run([python] + (['-O'] if sys.flags.optimize else []) + pyopts + ['-c', _child_source()],
+                           input=json.dumps(spec).encode('ascii'), env=env, cwd=root,
+                           stdout=subprocess.PIPE, stderr=subprocess.PIPE, timeout=300)
+        if not os.path.exists(report_path):
+            raise RuntimeError("the child process left no report (exit {}): {}".format(p.returncode, p.stderr[-1500:]))
+        with open(report_path, encoding='ascii') as f:
+            report = json.load(f)
+        if report['fatal']:
+            raise Violation("in a process with the environment {} the formula cannot even be built: {}".format(envvars, report['fatal'][-1200:]))
+        child_utf8 = codecs.lookup(report['preferred']).name == 'utf-8'
+        labels.append('child-default-encoding-' + ('utf-8' if child_utf8 else 'not-utf-8'))
+        enc_out = report['stdout']
+        labels.append('child-stdout-' + codecs.lookup(enc_out).name)
+        for i, (job, rec) in enumerate(zip(jobs, report['jobs'])):
+            via, req, how, name = job['via'], job['request'], job['how'], job['name']
+            if via == 'to_file':
+                fmt = expected_format(F, name, req)
+            else:
+                fmt = 'opb' if via == 'to_opb_file' else 'latex'
+            what = "[{}; default encoding {}] {}({}{}) [{}]".format(
+                ' '.join('{}={}'.format(k, v) for k, v in sorted(envvars.items())) + ''.join(' ' + o for o in pyopts),
+                report['preferred'], via,
+                {'none': 'None', 'str': 'file name', 'path': 'pathlib.Path', 'handle': 'handle opened with utf-8'}[how] +
+                ('' if name is None else ' ' + repr(os.path.relpath(name, root) if os.path.isabs(name) else name)),
+                ', fileformat={!r}'.format(req) if req else '', fmt)
+            err = rec['error']
+            if how == 'none':
+                m = re.search(('\n@@JOB {}@@\n(.*)\n@@END {}@@\n'.format(i, i)).encode('ascii'), p.stdout, re.S)
+                if m is None:
+                    raise RuntimeError("{}: markers of job {} not found in the output of the child".format(what, i))
+                buf = io.StringIO()
+                _write(F, via, buf, req, eh, ev, extra)
+                ref = buf.getvalue()
+                if _encodable(ref, enc_out):
+                    if err:
+                        raise Violation("{}: {} {} although the text can be encoded for this standard output".format(what, err[0], err[1]))
+                    if m.group(1) != ref.encode(enc_out):
+                        raise Violation("{}: the standard output received {} bytes, the text has {}".format(
+                            what, len(m.group(1)), len(ref.encode(enc_out))))
+                    labels.append('stdout-complete' if _encodable(ref, 'ascii') else 'stdout-complete-non-ascii')
+                else:
+                    # the encoding of the standard output is the user's choice: a text that it cannot represent may be refused
+                    if not err:
+                        raise Violation("{}: no error although the text cannot be encoded in {}".format(what, enc_out))
+                    if err[0] != 'UnicodeEncodeError':
+                        raise Violation("{}: {} {}".format(what, err[0], err[1]))
+                    labels.append('stdout-cannot-encode')
+                continue
+            path = name if os.path.isabs(name) else os.path.join(root, name)
+            if err:
+                if how == 'path' and err[0] in ('AttributeError', 'TypeError') and not os.path.exists(path):
+                    labels.append('pathlib-refused')
+                    continue
+                raise Violation("{}: {} {}".format(what, err[0], err[1]), signature='locale-dependent-file')
+            if not os.path.exists(path):
+                raise Violation("{}: no file was written".format(what))
+            with open(path, 'rb') as f:
+                raw = f.read()
+            if how in ('str', 'path') and rec['size'] != len(raw):
+                raise Violation("{}: when the call returned the file had {} bytes, in the end {}: it was not closed".format(what, rec['size'], len(raw)))
+            try:
+                text = raw.decode('utf-8')
+            except UnicodeDecodeError as e:
+                raise Violation("{}: the file is not UTF-8 ({})".format(what, e), signature='locale-dependent-file')
+            _denote(fmt, text, F, what, eh, ev, extra)
+            labels.append('file-' + how + '-' + fmt)
+    finally:
+        shutil.rmtree(root, ignore_errors=True)
+    return Outcome(labels=labels, nontrivial=nonascii and (not child_utf8 or warn))
+
+
+def run_destination(case):
+    kind = case.get('kind', 'dest')
+    if kind == 'dest':
+        return run_dest(case)
+    if kind == 'cli':
+        return run_dest_cli(case)
+    return run_env(case)
+
+
+# --- the cases
+
+def _lcg_rows(cls, m, nvars, salt):
+    rows, x = [], salt
+    for i in range(m):
+        lits = []
+        for _ in range(0 if i % 11 == 7 else 1 + i % 3):
+            x = (x * 1103515245 + 12345) & 0x7FFFFFFF
+            v = x % nvars + 1
+            lits.append(v if (x >> 16) & 1 else -v)
+        if cls == 'CNF':
+            rows.append(lits)
+        elif i % 3 == 1:
+            rows.append(['clause', lits])
+        else:
+            rows.append(['con', [[1 + (abs(l) * 7 + i) % 5, l] for l in lits], '==' if i % 4 == 0 else '>=', i % 6 - 1])
+    return rows
+
+
+_DEST_FORMULAS = [
+    {'cls': 'CNF', 'groups': [['block', [2, 2], 'p_{{{},{}}}'], ['single', 'α_1'], ['anon', 1]],
+     'rows': [[1, -2], [-3, 4], [], [2, -4, 5], [-6]]},
+    {'cls': 'CNF', 'groups': [['block', [3], 'x_{{{}}}'], ['single', 'é^{2}']], 'rows': _lcg_rows('CNF', 40, 4, 5),
+     'description': 'forty clauses', 'header': [['note', 'two pages']]},
+    {'cls': 'CNF', 'groups': [], 'rows': []},
+    {'cls': 'OPB', 'groups': [['single', 'a=b'], ['block', [2], 'x_{{{}}}'], ['single', 'π_{1,2}']],
+     'rows': [['con', [[2, 1], [3, -2]], '==', 3], ['clause', []], ['con', [[12, -3]], '>=', 2], ['con', [[1, 4], [5, -3]], '<', 2]]},
+    {'cls': 'OPB', 'groups': [], 'rows': []},
+    {'cls': 'OPB', 'groups': [['block', [2, 2], 'e({},{})']], 'rows': _lcg_rows('OPB', 36, 4, 9)},
+]
+_DEST_VIAS = [('to_file', 'opb'), ('to_file', 'latex'), ('to_file', None), ('to_file', 'dimacs'), ('to_opb_file', None),
+              ('to_latex_document', None), ('print_latex', None)]
+_DEST_FILENAMES = ['f.opb', 'g.tex', 'h.cnf', 'out', 'a b.opb', 'x.tex.txt']
+
+
+def _dest_specs():
+    """every kind of destination with its variants"""
+    for kind in _DEST_KINDS:
+        if kind in _NAME_KINDS or kind in _HANDLE_KINDS:
+            for rel, blank in ((False, False), (True, False), (False, True), (True, True)):
+                yield {'kind': kind, 'rel': rel, 'blank': blank}
+        else:
+            yield {'kind': kind}
+            if kind in _USER_CLASSES or kind == 'named-chunks':
+                yield {'kind': kind}            # twice: the user-defined objects are what this sub-check is about
+
+
+def _enum_dest():
+    specs = list(_dest_specs())
+    i = 0
+    for fi, f in enumerate(_DEST_FORMULAS):
+        for via, req in _DEST_VIAS:
+            if req == 'dimacs' and f['cls'] != 'CNF':
+                continue
+            for spec in specs:
+                if via == 'print_latex' and spec['kind'] not in _OBJECT_KINDS:
+                    continue
+                i += 1
+                c = dict(f)
+                d = dict(spec)
+                d['name'] = _DEST_FILENAMES[i % len(_DEST_FILENAMES)]
+                d['pre'] = i % 3 == 0
+                c.update({'kind': 'dest', 'via': via, 'request': req, 'dest': d, 'eh': bool(i % 2), 'ev': bool((i // 2) % 2),
+                          'omit': i % 4 == 1, 'pass_none': i % 5 == 0})
+                if i % 7 == 0:
+                    c['extra_text'] = 'Some remark.\n'
+                yield c
+
+
+_DEST_CLI = ['php 3 2', 'op 3', 'subsetcard complete 3 3 --equal', 'php 5 4', 'or 0 0', 'false']
+_CLI_OUT = [{'how': 'file', 'name': 'f.out', 'rel': False, 'blank': True}, {'how': 'file', 'name': 'f.tex', 'rel': True, 'blank': True},
+            {'how': 'file', 'name': 'f.opb', 'rel': True, 'blank': False, 'pre': True}, {'how': 'dash', 'name': '-'},
+            {'how': 'file', 'name': 'a b.cnf', 'rel': False, 'blank': False, 'pre': True}]
+
+
+def _enum_dest_cli(tier):
+    i = 0
+    for tool in ('cnfgen', 'pbgen'):
+        for s in (_DEST_CLI if tier == 'thorough' else _DEST_CLI[:3]):
+            for of in ('opb', 'latex'):
+                i += 1
+                outs = _CLI_OUT if tier == 'thorough' else [_CLI_OUT[i % len(_CLI_OUT)]]
+                for o in outs:
+                    yield {'kind': 'cli', 'tool': tool, 'args': s.split(), 'of': of, 'out': dict(o), 'varnames': bool(i % 2)}
+
+
+_ENV_NAMES = ['α_1', 'β', 'π_{1,2}', 'é^{2}', 'ñ', '変数_{1}', '节点(2)', '€_3', 'ж', '𝛼_2', 'y', 'x_{ü,1}', 'Ω^{∞}', 'ก']
+_ENV_HEADERS = [['auteur', 'Élodie — ≥ 3'], ['注释', '式'], ['note', 'plain ascii value'], ['κ', 'λ=μ']]
+_ENV_DESCRIPTIONS = ['formula with α, β and 変数', 'plain description', 'Größe ≤ 3', None]
+_ENV_EXTRA = ['', 'Bemerkung: größer ≥ 2, 注.\n', 'ascii remark\n']
+
+
+def _env_formula(rseed, alphabet='any'):
+    r = random.Random(rseed)
+    cls = 'CNF' if rseed % 2 else 'OPB'
+    ascii_only = alphabet == 'ascii'
+    if ascii_only:
+        groups = [['block', [2, 2], 'p_{{{},{}}}'], ['single', 'y']]
+        nv = 5
+    else:
+        pool = _ENV_NAMES if alphabet == 'any' else [n for n in _ENV_NAMES if _encodable(n, 'latin-1')]
+        names = r.sample(pool, min(len(pool), 4 + rseed % 3))
+        groups = [['single', n] for n in names]
+        if r.random() < 0.5:
+            groups.insert(r.randrange(len(groups) + 1), ['block', [2], r.choice(['χ_{{{}}}', 'z({})', '点_{{{}}}'])])
+        nv = sum(2 if g[0] == 'block' else 1 for g in groups)
+    m = r.choice([3, 6, 36, 40]) if rseed % 4 == 1 else r.choice([3, 5, 8])
+    f = {'cls': cls, 'groups': groups, 'rows': _lcg_rows(cls, m, nv, 1 + rseed)}
+    if not ascii_only:
+        d = _ENV_DESCRIPTIONS[rseed % len(_ENV_DESCRIPTIONS)]
+        if alphabet == 'latin1':
+            d = 'Größe und café'
+        if d is not None:
+            f['description'] = d
+        f['header'] = [list(_ENV_HEADERS[(rseed // 2) % len(_ENV_HEADERS)])]
+    return f
+
+
+def _enum_env(tier):
+    n = 3 if tier == 'quick' else 24
+    i = 0
+    for envname in _ENVS:
+        for k in range(n):
+            i += 1
+            alphabet = ['any', 'latin1', 'ascii', 'any', 'any', 'any'][k % 6]
+            yield {'kind': 'env', 'env': envname, 'rseed': i, 'formula': _env_formula(i, alphabet=alphabet),
+                   'eh': bool(k % 3 != 1), 'ev': True if k < 3 else bool(i % 2),
+                   'extra_text': {'any': _ENV_EXTRA[i % len(_ENV_EXTRA)], 'latin1': 'größer\n', 'ascii': ''}[alphabet]}
+
+
+def enum_destination(tier):
+    # the slower child-process and command-line cases come first, one after the other: the shards (case index modulo
+    # the number of shards) share them evenly
+    for c in _enum_env(tier):
+        yield c
+    for c in _enum_dest_cli(tier):
+        yield c
+    for c in _enum_dest():
+        yield c
+
+
+_hand_cases = strat_hand()
+_dest_kind = st.sampled_from(_DEST_KINDS + tuple(_USER_CLASSES) + ('named-chunks', 'pathlib', 'name'))
+_dest_via = st.sampled_from(_DEST_VIAS)
+_dest_fname = st.tuples(st.sampled_from(_NAMES + ['a b']), st.sampled_from(_EXTS)).map(lambda t: t[0] + t[1])
+_bool = st.booleans()
+
+
+@st.composite
+def strat_destination(draw):
+    case = dict(draw(_hand_cases))
+    case.pop('target', None)
+    via, req = draw(_dest_via)
+    case.update({'kind': 'dest', 'via': via, 'request': req, 'omit': draw(_bool), 'pass_none': draw(_bool),
+                 'dest': {'kind': draw(_dest_kind), 'rel': draw(_bool), 'blank': draw(_bool), 'pre': draw(_bool),
+                          'name': draw(_dest_fname)}})
+    return _norm_dest_case(case)
+
+
+SUBCHECKS.append(
+    SubCheck('destination', run_destination, strategy=strat_destination, enumerate_cases=enum_destination,
+             quick=300, thorough=40000,
+             rule="(a) DESTINATION: 6 fixed formulas (CNF/OPB, empty, 36 and 40 rows, non-ASCII names) and the formulas of 'hand' x entry point "
+                  "(to_file with request opb/latex/dimacs/None, to_opb_file, to_latex_document, the snippet writer _print_latex) x destination: "
+                  "None and omitted argument (sys.stdout replaced by a StringIO or by a falsy chunk list), file name as str and as pathlib.Path "
+                  "(absolute/relative to the cwd, directory with a blank, file absent or holding longer junk), text handles (default, newline='', "
+                  "line buffered, newline='\\r\\n', 'w+', 'a', codecs.open), TextIOWrapper over BytesIO, SpooledTemporaryFile that rolls over, "
+                  "NamedTemporaryFile, StringIO, user objects: only write() returning None, list subclass with write=list.append (falsy), "
+                  "the same with a name attribute, buffer with __len__, buffer with __bool__==False, write() returning the count; objects empty or "
+                  "already written to, and written to again afterwards. Oracle: the StringIO text of the same entry point is read back and compared "
+                  "with the formula (as in 'hand'), the destination holds exactly previous+that text+next, nothing reaches sys.stdout unless the "
+                  "destination is None, write() only gets str, the caller's object is not closed; a pathlib.Path may instead be refused with "
+                  "AttributeError/TypeError if no file is touched. cnfgen/pbgen -q -of opb|latex -o <name> (blank, relative, existing, '-') "
+                  "against the standard output of the same command line. "
+                  "(b) ENVIRONMENT: formulas with Greek, accented, Cyrillic, CJK, Thai, euro-sign and non-BMP variable names, non-ASCII header "
+                  "fields, description and extra_text, written by a child process under LC_ALL=C PYTHONUTF8=0 PYTHONCOERCECLOCALE=0 "
+                  "(PYTHONIOENCODING unset/ascii/latin-1) and under -X warn_default_encoding with EncodingWarning as error: 15 jobs per child "
+                  "(to_file/to_opb_file/to_latex_document by str name absolute and relative, by Path, into a handle opened with utf-8, to None). "
+                  "Oracle: every file written by name is closed on return, decodes as UTF-8 and denotes the formula (readers of 'hand'); the "
+                  "standard output carries exactly the text encoded in its encoding when that is possible, else UnicodeEncodeError. quick: 12 "
+                  "children, thorough: 96. non-trivial: as in 'hand', or a falsy destination; environment: non-ASCII text and a non-UTF-8 default",
+             required_labels=['dest-' + k for k in _DEST_KINDS] +
+                             ['via-to_file', 'via-to_opb_file', 'via-to_latex_document', 'via-print_latex', 'via-cli', 'relative', 'absolute',
+                              'blank-in-directory', 'destination-not-empty', 'falsy-destination', 'destination-omitted',
+                              'format-from-name-attribute', 'selected-opb', 'selected-latex', 'selected-dimacs', 'selected-snippet',
+                              'env-C', 'env-C-stdout-ascii', 'env-C-stdout-latin-1', 'env-utf8-warn-default-encoding',
+                              'child-default-encoding-not-utf-8', 'child-stdout-ascii', 'child-stdout-iso8859-1', 'non-ascii-text',
+                              'name-not-latin-1', 'name-beyond-BMP', 'stdout-complete', 'stdout-complete-non-ascii', 'stdout-cannot-encode',
+                              'file-str-opb', 'file-str-latex', 'file-str-dimacs', 'file-handle-opb', 'file-handle-latex',
+                              'page-split', 'empty-formula', 'CNF', 'OPB']))
